@@ -5,6 +5,7 @@ import ast
 
 from sa.analyses.base import RuleAnalysis
 from sa.analyses.buffers import assignments, deps, linear, yield_vars
+from sa.analyses.buffers import through_local
 from sa.db import AnalysisError, ClassInfo, FunctionInfo, dotted, mangle, norm_stmt, own_nodes
 from sa.exc import CANCELLED
 from sa.flow import Interp, TestAtom, call_of
@@ -448,6 +449,166 @@ def check_ws(eng, run):
     run.ob("C01.ws", "_JSONParser:whitespace-tables-agree", not bad, evaluated=True, whitespace=sorted(map(repr, ws)))
 
 
+COPY_CALLS = {"bytes", "bytearray", "str", "tobytes", "decode", "hex", "join"}
+
+
+def _buffer_aliases(fn) -> set[str]:
+    """locals that are (views of / slices of) the caller-owned receive buffer parameter of a buffered deserializer"""
+    ps = [a.arg for a in fn.params()]
+    al = set(ps[1:2]) if len(ps) > 1 else set()
+    changed = True
+    while changed:
+        changed = False
+        for n in own_nodes(fn.node):
+            tgt = val = None
+            if isinstance(n, (ast.With, ast.AsyncWith)):
+                for it in n.items:
+                    if isinstance(it.optional_vars, ast.Name):
+                        tgt, val = it.optional_vars.id, it.context_expr
+                        if tgt not in al and _is_view_of(val, al):
+                            al.add(tgt)
+                            changed = True
+                continue
+            if isinstance(n, ast.Assign) and len(n.targets) == 1 and isinstance(n.targets[0], ast.Name):
+                tgt, val = n.targets[0].id, n.value
+            elif isinstance(n, ast.AnnAssign) and isinstance(n.target, ast.Name) and n.value is not None:
+                tgt, val = n.target.id, n.value
+            elif isinstance(n, ast.NamedExpr):
+                tgt, val = n.target.id, n.value
+            if tgt is not None and tgt not in al and _is_view_of(val, al):
+                al.add(tgt)
+                changed = True
+    return al
+
+
+def _is_view_of(e, aliases) -> bool:
+    """e evaluates to an object sharing memory with one of aliases: the name itself, memoryview(x), x[...] of a view, x.cast(...)"""
+    if isinstance(e, ast.Name):
+        return e.id in aliases
+    if isinstance(e, ast.Subscript) and isinstance(e.slice, ast.Slice):
+        return _is_view_of(e.value, aliases)
+    if isinstance(e, ast.Call):
+        name = _cname(e)
+        if name == "memoryview" and e.args:
+            return _is_view_of(e.args[0], aliases)
+        if name in ("cast", "toreadonly", "__enter__") and isinstance(e.func, ast.Attribute):
+            return _is_view_of(e.func.value, aliases)
+    if isinstance(e, ast.IfExp):
+        return _is_view_of(e.body, aliases) or _is_view_of(e.orelse, aliases)
+    return False
+
+
+def check_copy(eng, run):
+    """the buffer-filling receive path re-uses one buffer for every read: what a buffered deserializer hands to the user-level
+    deserialize() must be a copy of the frame, never a view of that buffer (the next read, or the move of the remainder to
+    the buffer start, would rewrite a packet that was already delivered - a packet then depends on how the stream was cut)"""
+    n = 0
+    for ci in eng.db.classes.values():
+        if not ci.module.name.startswith("easynetwork.serializers"):
+            continue
+        fn = ci.methods.get("buffered_incremental_deserialize")
+        if fn is None or fn.has_decorator("abstractmethod"):
+            continue
+        al = _buffer_aliases(fn)
+        calls = [c for c in own_nodes(fn.node) if isinstance(c, ast.Call) and _cname(c) in ("deserialize", "load_from_file") and c.args]
+        if not calls:
+            continue
+        n += 1
+        bad = []
+        for c in calls:
+            e = through_local(fn, c.args[0])
+            if _is_view_of(e, al) or (isinstance(e, ast.Subscript) and _is_view_of(e.value, al)):
+                bad.append((c, e))
+        for c, e in bad:
+            run.finding("C01.copy", fn, _stmt_of(fn, c), f"`{ast.unparse(c)}` receives `{ast.unparse(e)}`, a view of the re-used receive buffer, not a copy: "
+                        "a delivered packet that keeps its data is overwritten by the next read")
+        run.ob("C01.copy", f"{ci.name}.buffered_incremental_deserialize", not bad, buffer_aliases=sorted(al), deserialize_calls=len(calls))
+    run.floor("C01.copy buffered deserializers calling deserialize()", n, 2)
+
+
+def _is_backslash(fn, ci, e) -> bool:
+    """e denotes the backslash byte: 92, ord(b"\\"), or a (class) constant / local bound to one of those"""
+    e = through_local(fn, e)
+    if isinstance(e, ast.Constant):
+        return e.value in (92, b"\\", "\\")
+    if isinstance(e, ast.Call) and _cname(e) == "ord" and e.args and isinstance(e.args[0], ast.Constant):
+        return e.args[0].value in (b"\\", "\\")
+    if isinstance(e, ast.Attribute):
+        for st in ci.node.body:
+            tgt = st.target if isinstance(st, ast.AnnAssign) else (st.targets[0] if isinstance(st, ast.Assign) and len(st.targets) == 1 else None)
+            if isinstance(tgt, ast.Name) and tgt.id == e.attr and getattr(st, "value", None) is not None:
+                return _is_backslash(fn, ci, st.value)
+    return False
+
+
+def check_esc(eng, run):
+    """JSON framer: whether a double quote closes a string depends on the parity of the *whole* run of backslashes before it.
+    Decided structurally: the predicate walks back through the view in a loop (no constant look-back can be right), toggles or
+    counts only on the escape byte, stops at the first other byte, and the quote case of the framer consults it on exactly the
+    prefix that ends at the quote."""
+    ci = eng.db.module("serializers.json").classes.get("_JSONParser")
+    fn = ci.methods.get("_escaped") if ci else None
+    rp = ci.methods.get("raw_parse") if ci else None
+    if fn is None or rp is None:
+        raise AnalysisError("anchor vanished: _JSONParser._escaped / raw_parse")
+    param = fn.params()[0].arg
+    probs = []
+    loops = [n for n in own_nodes(fn.node) if isinstance(n, (ast.For, ast.While))]
+    walks_back = False
+    toggles = False
+    stops = False
+    result_var = None
+    for lp in loops:
+        if isinstance(lp, ast.For):
+            it = lp.iter
+            rev = isinstance(it, ast.Call) and _cname(it) == "reversed" and it.args and dotted(through_local(fn, it.args[0])) == param
+            rev = rev or (isinstance(it, ast.Subscript) and isinstance(it.slice, ast.Slice) and it.slice.step is not None and ast.unparse(it.slice.step) == "-1" and dotted(it.value) == param)
+            rev = rev or (isinstance(it, ast.Call) and _cname(it) == "range" and len(it.args) == 3 and ast.unparse(it.args[2]) == "-1")
+            walks_back = walks_back or bool(rev)
+        else:
+            walks_back = walks_back or any(isinstance(x, ast.AugAssign) and isinstance(x.op, ast.Sub) for x in ast.walk(lp))
+        for iff in [x for x in ast.walk(lp) if isinstance(x, ast.If)]:
+            t = iff.test
+            if isinstance(t, ast.Compare) and len(t.ops) == 1 and isinstance(t.ops[0], (ast.Eq, ast.NotEq)) and (_is_backslash(fn, ci, t.left) or _is_backslash(fn, ci, t.comparators[0])):
+                on_esc, on_other = (iff.body, iff.orelse) if isinstance(t.ops[0], ast.Eq) else (iff.orelse, iff.body)
+                for st in on_esc:
+                    if isinstance(st, ast.Assign) and isinstance(st.value, ast.UnaryOp) and isinstance(st.value.op, ast.Not) and dotted(st.value.operand) == dotted(st.targets[0]):
+                        toggles, result_var = True, dotted(st.targets[0])
+                    if isinstance(st, ast.AugAssign) and isinstance(st.op, (ast.Add, ast.BitXor)):
+                        toggles, result_var = True, dotted(st.target)
+                stops = stops or any(isinstance(st, (ast.Break, ast.Return)) for st in on_other)
+    if not loops or not walks_back:
+        probs.append("the escape test no longer walks back through the run of backslashes (a constant look-back cannot tell `\\\\\\\"` from `\\\\\\\\\"`)")
+    elif not toggles:
+        probs.append("the loop no longer toggles / counts on each escape byte")
+    elif not stops:
+        probs.append("the loop no longer stops at the first byte that is not an escape byte")
+    rets = [r for r in own_nodes(fn.node) if isinstance(r, ast.Return) and r.value is not None]
+    if result_var is not None and not all(result_var in {dotted(x) for x in ast.walk(r.value)} for r in rets):
+        probs.append(f"the result is not the parity variable `{result_var}`")
+    for p in probs:
+        run.finding("C01.esc", fn, fn.node, p + ": a string containing such a quote ends early for the framer, nesting is lost and packets are cut at the wrong byte")
+    run.ob("C01.esc", f"{fn.short}:parity-of-the-whole-backslash-run", not probs, loops=len(loops))
+    # the framer consults it with the prefix ending at the quote
+    ok = False
+    alias = {fn.name} | {t.id for a in own_nodes(rp.node) if isinstance(a, ast.Assign) and (dotted(a.value) or "").endswith("." + fn.name) for t in a.targets if isinstance(t, ast.Name)}
+    for m in [x for x in own_nodes(rp.node) if isinstance(x, ast.Match)]:
+        for case in m.cases:
+            if isinstance(case.pattern, ast.MatchValue) and ast.unparse(case.pattern.value) in ("b'\"'",):
+                g = case.guard
+                calls = [c for c in ast.walk(g) if isinstance(c, ast.Call) and (dotted(c.func) or "").split(".")[-1] in alias] if g is not None else []
+                for c in calls:
+                    a = c.args[0] if c.args else None
+                    if isinstance(a, ast.Subscript) and isinstance(a.slice, ast.Slice) and a.slice.lower is None and a.slice.upper is not None and a.slice.step is None:
+                        # upper bound = the loop index of the enclosing enumerate
+                        idx = {t.elts[0].id for f in own_nodes(rp.node) if isinstance(f, ast.For) and isinstance(f.target, ast.Tuple) and isinstance(f.target.elts[0], ast.Name) for t in [f.target]}
+                        negated = isinstance(g, ast.UnaryOp) and isinstance(g.op, ast.Not)
+                        ok = dotted(a.slice.upper) in idx and negated
+    if not ok:
+        run.finding("C01.esc", rp, rp.node, "the quote case of the JSON framer no longer toggles the in-string state under `not escaped(<view>[:<index of the quote>])`")
+    run.ob("C01.esc", f"{rp.short}:quote-case-consults-escape-on-prefix", ok)
+
+
 def run(eng, run):
     run.not_decided += NOT_DECIDED
     check_ws(eng, run)
@@ -455,6 +616,8 @@ def run(eng, run):
     check_rem(eng, run)
     check_inj(eng, run)
     check_tbl(eng, run)
+    check_copy(eng, run)
+    check_esc(eng, run)
     run.tables["remainder_exceptions"] = REM_EXCEPTIONS
 
 
@@ -512,4 +675,40 @@ MUTANTS += [
 ]
 BENIGN += [
     Variant("json-framer-whitespace-case-first", "serializers.json:_JSONParser.raw_parse", _ws_case_first, why="non-overlapping case moved to the front"),
+]
+
+_ESC = "serializers.json:_JSONParser._escaped"
+_FIX = "serializers.base_stream:FixedSizePacketSerializer.buffered_incremental_deserialize"
+_AUTOB = "serializers.base_stream:AutoSeparatedPacketSerializer.buffered_incremental_deserialize"
+
+
+def _two_byte_lookback(fn):
+    fn.body = ast.parse(
+        "_ESCAPE_BYTE = _JSONParser._ESCAPE_BYTE\n"
+        "nbytes = partial_document_view.nbytes\n"
+        "if nbytes < 1 or partial_document_view[nbytes - 1] != _ESCAPE_BYTE:\n    return False\n"
+        "return nbytes < 2 or partial_document_view[nbytes - 2] != _ESCAPE_BYTE").body
+
+
+def _counting_variant(fn):
+    fn.body = ast.parse(
+        "count = 0\n"
+        "for byte in reversed(partial_document_view):\n"
+        "    if byte != _JSONParser._ESCAPE_BYTE:\n        break\n"
+        "    else:\n        count += 1\n"
+        "return count % 2 == 1").body
+
+
+MUTANTS += [
+    Variant("json-escape-two-byte-lookback", _ESC, _two_byte_lookback, "C01.esc", why="a quote after 3 backslashes is taken for the end of the string (seed C01-4)"),
+    Variant("json-escape-no-stop", _ESC, lambda fn: replace_stmt(fn, stmt_is("break"), "pass"), "C01.esc", why="backslashes anywhere earlier in the document flip the parity"),
+    Variant("json-escape-checked-on-whole-view", "serializers.json:_JSONParser.raw_parse", lambda fn: replace_expr(fn, "escaped(partial_document_view[:offset])", "escaped(partial_document_view)"), "C01.esc"),
+    Variant("fixed-size-frame-not-copied", _FIX, lambda fn: replace_expr(fn, "bytes(buffer[:packet_size])", "buffer[:packet_size]"), "C01.copy",
+            why="packets already delivered change when the buffer is refilled (seed C01-5)"),
+    Variant("auto-separated-frame-not-copied", _AUTOB, lambda fn: replace_expr(fn, "bytes(buffer_view[:sepidx])", "buffer_view[:sepidx]"), "C01.copy"),
+]
+BENIGN += [
+    Variant("json-escape-counting-variant", _ESC, _counting_variant, why="parity computed by counting"),
+    Variant("json-escape-rename-local", _ESC, lambda fn: rename_local(fn, "_ESCAPE_BYTE", "esc"), why="local renamed"),
+    Variant("fixed-size-frame-tobytes", _FIX, lambda fn: replace_expr(fn, "bytes(buffer[:packet_size])", "buffer[:packet_size].tobytes()"), why="copy through tobytes()"),
 ]
